@@ -6,8 +6,8 @@ Open Scope Z_scope.
 
 (** No control response is routed into a waiting DATA transaction (the defect class of
     DESIGN.md §5 #2).  The repaired step function needs no such hypothesis. *)
-Definition benign (fx : bool) (s : state) (a : action) : bool :=
-  fx ||
+Definition benign (fx : bool) (p : cfg) (s : state) (a : action) : bool :=
+  fx || DW p ||
   match a with
   | ADispatch =>
       match inq s with
@@ -228,7 +228,7 @@ Proof.
         destruct cr as [n f|x].
         -- destruct (chan_result_msg _ _ _ _ RES) as [[-> KF]|[-> [FX [NK NS]]]]; cbn.
            ++ repeat split; auto; try apply CR. intros NKC. destruct KF as [KF|KF]; [contradiction | exact KF].
-           ++ intros _ KS. pose proof (ck_nil _ _ _ _ OK FX KS n f CH) as Z0. contradiction.
+           ++ intros _ KS. pose proof (ck_nil _ _ _ _ OK (or_introl FX) KS n f CH) as Z0. contradiction.
         -- cbn in RES. inversion RES; subst; cbn. split; auto.
       * intros _. cbn. repeat split; auto. right; right; right; eauto.
       * intros n [[f Hc]|[f Hx]]; cbn in *; [discriminate|].
@@ -375,7 +375,7 @@ Qed.
 Lemma offer_inv : forall s id r,
   Inv s ->
   (forall c, get id (calls s) = Some c -> cres_ok s (f_sys (c_msg c)) r) ->
-  (forall c n f, get id (calls s) = Some c -> r = CMsg n f -> fx = false -> c_kind c = KSync -> f_st f = 0) ->
+  (forall c n f, get id (calls s) = Some c -> r = CMsg n f -> (fx = false \/ DW p = true) -> c_kind c = KSync -> f_st f = 0) ->
   (forall n f, r = CMsg n f -> forall j cj, get j (calls s) = Some cj -> ~ (chan_holds cj n \/ exit_holds cj n)) ->
   Inv (offer s id r).
 Proof.
@@ -410,7 +410,7 @@ Proof.
 Qed.
 
 Lemma dispatch_inv : forall s n f q,
-  Inv s -> inq s = (n, f) :: q -> benign fx s ADispatch = true ->
+  Inv s -> inq s = (n, f) :: q -> benign fx p s ADispatch = true ->
   Inv (fst (dispatch p (w_inq s q) n f)).
 Proof.
   intros s n f q I E B.
@@ -421,7 +421,7 @@ Proof.
   assert (NQ0 : ~ In n (map fst (inq s0))) by exact NQ.
   assert (OFF : forall id, reg_get (gen s0) (f_sys f) (reg s0) = Some id -> f_pt f = 0 ->
                 (f_st f = 0 -> is_secondary f = true) ->
-                (fx = false -> forall c, get id (calls s0) = Some c -> c_kind c = KSync -> f_st f = 0) ->
+                ((fx = false \/ DW p = true) -> forall c, get id (calls s0) = Some c -> c_kind c = KSync -> f_st f = 0) ->
                 Inv (offer s0 id (CMsg n f))).
   { intros id RG PT SEC NIL. apply offer_inv; auto.
     - intros c G. destruct (i_reg _ _ _ I0 _ _ _ RG) as (d & Gd & D1 & D2 & D3 & D4).
@@ -449,11 +449,19 @@ Proof.
     - intros c n0 f0 G Eq. discriminate.
     - intros n0 f0 Eq. discriminate. }
   destruct ((f_st f =? 2) || (f_st f =? 4) || (f_st f =? 6)) eqn:ST246.
-  { destruct (reg_get (gen s0) (f_sys f) (reg s0)) as [id|] eqn:RG; [|cbn; apply Inv_sendq; exact I0].
+  { destruct (route_ctl p s0 f) as [id|] eqn:RC; [|cbn; apply Inv_sendq; exact I0].
+    assert (RG : reg_get (gen s0) (f_sys f) (reg s0) = Some id /\ DW p && data_waiter s0 id = false).
+    { unfold route_ctl in RC. destruct (reg_get (gen s0) (f_sys f) (reg s0)) as [j|]; [|discriminate].
+      destruct (DW p && data_waiter s0 j) eqn:DWJ; [discriminate|]. inversion RC; subst. auto. }
+    destruct RG as [RG NDW].
     assert (IO : Inv (offer s0 id (CMsg n f))).
     { apply OFF; auto.
       - intros Z0. rewrite Z0 in ST0. cbn in ST0. discriminate.
-      - intros FX c G KS. exfalso. unfold benign in B. rewrite FX, E in B. cbn in B.
+      - intros NC c G KS. exfalso.
+        assert (DWK : data_waiter s0 id = true) by (unfold data_waiter; rewrite G, KS; reflexivity).
+        rewrite DWK, andb_true_r in NDW.
+        destruct NC as [FX|DT]; [|congruence].
+        unfold benign in B. rewrite FX, NDW, E in B. cbn in B.
         rewrite ST246 in B. change (gen s) with (gen s0) in B. change (reg s) with (reg s0) in B.
         rewrite RG in B. change (calls s) with (calls s0) in B. rewrite G, KS in B. cbn in B. discriminate. }
     destruct ((f_st f =? 2) && (f_b3 f =? 0) && cstate_eqb (st (offer s0 id (CMsg n f))) NS); cbn; [apply Inv_st|]; exact IO. }
@@ -466,7 +474,7 @@ Proof.
 Qed.
 
 Theorem exec_inv : forall s a s' os,
-  Inv s -> benign fx s a = true -> exec fx p s a = Some (s', os) -> Inv s'.
+  Inv s -> benign fx p s a = true -> exec fx p s a = Some (s', os) -> Inv s'.
 Proof.
   intros s a s' os I B H. destruct a.
   - eapply start_inv; eauto.
@@ -503,7 +511,7 @@ Qed.
 Fixpoint all_benign (s : state) (acts : list action) : bool :=
   match acts with
   | [] => true
-  | a :: r => benign fx s a &&
+  | a :: r => benign fx p s a &&
               match exec fx p s a with
               | Some (s1, _) => all_benign s1 r
               | None => true
@@ -523,11 +531,18 @@ Qed.
 
 End Steps.
 
-Lemma benign_fixed : forall s a, benign true s a = true.
+Lemma benign_fixed : forall p s a, benign true p s a = true.
 Proof. reflexivity. Qed.
 
 Lemma all_benign_fixed : forall p acts s, all_benign true p s acts = true.
 Proof.
   induction acts as [|a r IH]; cbn; intros s; [reflexivity|].
   destruct (exec true p s a) as [[s1 o1]|]; auto.
+Qed.
+
+(* with the data-only registry no control response can reach a data waiter: every action is benign *)
+Lemma all_benign_dw : forall fx p acts s, DW p = true -> all_benign fx p s acts = true.
+Proof.
+  intros fx p. induction acts as [|a r IH]; cbn; intros s D; [reflexivity|].
+  unfold benign. rewrite D, orb_true_r. cbn. destruct (exec fx p s a) as [[s1 o1]|]; auto.
 Qed.
